@@ -13,7 +13,15 @@ import (
 // Rand is splitmix64; every random choice of a run derives from one VERIF_SEED.
 type Rand struct{ s uint64 }
 
-func NewRand(seed uint64) *Rand { return &Rand{s: seed*0x9E3779B97F4A7C15 + 0x1234567} }
+// NewRand hashes the seed (one splitmix64 finaliser).  The state advances by the golden-ratio increment on every draw, so
+// the former seeding `seed*increment + c` made the stream of seed k+1 the stream of seed k shifted by one draw: runs with
+// VERIF_SEED=1,2,3… explored almost the same cases.
+func NewRand(seed uint64) *Rand {
+	z := seed + 0x9E3779B97F4A7C15
+	z = (z ^ (z >> 30)) * 0xBF58476D1CE4E5B9
+	z = (z ^ (z >> 27)) * 0x94D049BB133111EB
+	return &Rand{s: (z ^ (z >> 31)) + 0x1234567}
+}
 
 func (r *Rand) U64() uint64 {
 	r.s += 0x9E3779B97F4A7C15
